@@ -1087,7 +1087,7 @@ def work(shard, seed, tier):
         acc.note("every sequence of exactly %d operations over the concrete alphabets (%s) from an empty and a "
                  "populated start was executed" % (L, ", ".join("%s: %d ops" % (k, len(alphabet(k, 0))) for k in KINDS)))
         return acc
-    n = 2000 if tier == "quick" else 5000
+    n = 1000 if tier == "quick" else 5000
     idx = KINDS.index(kind) * 100 + shard["i"]
     campaign(acc, case_strategy(kind), outcome, n, seed * 1000 + idx,
              budget=Budget(100 if tier == "quick" else 1500), max_sigs=6, shrink_examples=300)
